@@ -37,8 +37,8 @@ def c12(run):
                                  invariants=["ImplRefinesProp", "Emit"]),
                             "C12", workers=6, threads=8)
     run.add(tlc, s)
-    run.rule += ("  ||  and every history to depth %d over EVERY member of every class the rules name (30 punctuation marks, 36 consonants, 11 vowels, 10 vowel signs, "
-                 "10 digits, the special signs and multi-code-point values: 107 values) x 16 settings" % d3)
+    run.rule += ("  ||  and every pair of members of every class the rules name (30 punctuation marks, 36 consonants, 11 vowels, 10 vowel signs, "
+                 "10 digits, the special signs and multi-code-point values: 107 values)%s x 16 settings" % (" followed by one of the 8 chain-level values" if d3 > 2 else ""))
     fixed_trace(run, "compose")
     run.assumptions += ["class representatives stand for their class (one consonant etc.); edge characters on which "
                         "riti's tables and the Unicode chart differ are outside the normative alphabet",
@@ -186,6 +186,23 @@ def c01(run):
     tlc, s = run_record_validate(run, "store", "store", "Trace_Store.tla", "C01", "panic", rounds, shards=8, focus="C01")
     run.add(tlc, s)
     run.rule += ("  ||  impl -> spec: 8 x %d rounds of the commit-heavy learning driver (see C09) validated against Trace_Store with Focus=C01: every typing / commit call returned" % rounds)
+    # text shapes: a panic is C01's subject wherever it happens, so the text-level scenario families of C03 / C17 (punctuation runs,
+    # quotes next to every punctuation class, both methods) and the real-data candidate corpora of C07 / C15 are run here as well,
+    # counting only `panic` (site filter) / only the Panic action (Focus = C01)
+    q = run.quick()
+    tlc, s = run_tlc_replay(run, "MC_Split_punctruns", "MC_Split.tla",
+                            dict(spec="Spec", constants={"MaxLen": 3 if q else 4, "Mode": '"punctruns"'}, invariants=["Emit"]), "C01", workers=4, threads=8)
+    run.add(tlc, s)
+    for m in ("phonetic", "fixed"):
+        tlc, s = run_tlc_replay(run, "MC_Quote_" + m, "MC_Quote.tla",
+                                dict(spec="Spec", constants={"MaxLen": 5 if q else 6, "Method": '"%s"' % m}, invariants=["Emit"]), "C01", workers=4, threads=8)
+        run.add(tlc, s)
+    tlc, s = run_record_validate(run, "cands", "cands", "Trace_Cands.tla", "C01", "panic", 1, shards=12 if q else 16, focus="C01", unit="event", timeout=3000)
+    run.add(tlc, s)
+    tlc, s = run_record_validate(run, "fcands", "fcands", "Trace_Cands.tla", "C01", "panic", 1, shards=12 if q else 16, focus="C01", unit="event", timeout=6000)
+    run.add(tlc, s)
+    run.rule += ("  ||  text shapes and real data, panics only: the scenario families MC_Split 'punctruns' and MC_Quote (both methods) replayed with site filter `panic`, "
+                 "and the candidate corpora of both methods (see C07 / C15) recorded and validated with Focus=C01 (only a panic event rejects)")
 
 
 def c02(run):
